@@ -141,6 +141,59 @@ def judge(ys, db, roots):
     return problems
 
 
+def abort_walk(w, roots, api, bulk, how, n):
+    """
+    Start a walk on an already used client and abandon it part-way: the
+    consumer stops iterating after n items (how == "stop") or the transport
+    times out on request n (how == "timeout").  Nothing is judged here; the
+    NEXT complete walk on the same client must still be exact.
+    """
+    oids = [OID(r) for r in roots]
+    strs = [rig.oid_s(r) for r in roots]
+    c, p = w.client, w.py
+    if api == "multiwalk":
+        agen = c.multiwalk(oids)
+    elif api == "pymultiwalk":
+        agen = p.multiwalk(strs)
+    elif api == "bulkwalk":
+        agen = c.bulkwalk(oids, bulk_size=bulk)
+    elif api == "pybulkwalk":
+        agen = p.bulkwalk(strs, bulk_size=bulk)
+    else:
+        raise ValueError(api)
+    w.seam.reset(budget=60)
+    inner = w.seam.responder
+    count = {"n": 0}
+
+    def lossy(data):
+        count["n"] += 1
+        if how == "timeout" and count["n"] > n:
+            return None  # -> puresnmp.exc.Timeout, like the real UDP sender
+        return inner(data)
+
+    w.seam.responder = lossy
+
+    async def partial():
+        got = 0
+        try:
+            async for _ in agen:
+                got += 1
+                if how == "stop" and got >= n:
+                    break
+        finally:
+            await agen.aclose()
+        return got
+
+    try:
+        try:
+            rig._run(partial())
+        except Exception:  # noqa: BLE001 - Timeout etc.: that IS the abort
+            pass
+    finally:
+        w.seam.responder = inner
+        w.seam.reset()
+
+
 def run_walk(level, db, roots, api, bulk=None, policy=None, policy_seed=0, w=None):
     """
     Execute one walk through the public API against a fresh agent.
